@@ -200,6 +200,34 @@ def hull_body(nps, npts):
     return pts[scipy.spatial.ConvexHull(pts).simplices]
 
 
+def needle_prism(rng, nps):
+    """prism over a convex polygon two of whose neighbouring corners are only 10^-4 .. 10^-2 apart (the body of repo fix ed093b8): the
+    wall between them consists of two SLIVER facets, the fans of the caps contain needle facets; outward wound"""
+    m = rng.choice([4, 5, 6])
+    ang = (np.arange(m) + nps.uniform(0.1, 0.9, m)) * (2 * np.pi - 0.3) / m  # neighbours at least 0.2 rad apart, also across 2 pi
+    gap = 10.0 ** float(nps.uniform(-4, -2))
+    k = rng.randrange(len(ang))
+    ang = np.sort(np.concatenate([ang, [ang[k] + gap]]))
+    n = len(ang)
+    poly = np.stack([np.cos(ang), np.sin(ang)], axis=1)
+    h = rng.choice([0.5, 1.0, 2.0])
+    v = np.array([[x, y, z] for z in (0.0, h) for x, y in poly])
+    a = rng.randrange(n)  # apex of the two cap fans
+    tris = [[a, (a + j + 1) % n, (a + j) % n] for j in range(1, n - 1)] + [[n + a, n + (a + j) % n, n + (a + j + 1) % n] for j in range(1, n - 1)]
+    for j in range(n):
+        j2 = (j + 1) % n
+        tris += [[j, j2, n + j2], [j, n + j2, n + j]]
+    return v[np.array(tris)]
+
+
+def facet_aspect(f):
+    """longest edge over smallest height of a facet (needles and slivers alike); inf for zero area"""
+    e = [np.linalg.norm(f[k] - f[(k + 1) % 3]) for k in range(3)]
+    ar = np.linalg.norm(np.cross(f[1] - f[0], f[2] - f[0]))
+    with np.errstate(all="ignore"):
+        return float(max(e) ** 2 / ar) if ar > 0 else float("inf")
+
+
 def random_rotation(nps):
     q = nps.normal(size=4)
     q /= np.linalg.norm(q)
@@ -212,8 +240,9 @@ def random_rotation(nps):
 def gen_inside_mesh(rng, nps):
     """one closed body (faces array (m,3,3)) at a length scale 1e-9 .. 1e6, axis-aligned or rotated, shifted; `degen` bodies carry
     extra zero-area faces (two equal corners / three collinear corners: zero normal, NaN projections), `point` bodies have all
-    corners at one position (mesh size 0: the branch without division), `slab` bodies are boxes 10^-7.5..10^-3.5 thin"""
-    kind = rng.choice(["box", "box", "slab", "tetra", "tetra", "hull", "hull", "hull", "lbody", "lbody", "degen", "point"])
+    corners at one position (mesh size 0: the branch without division), `slab` bodies are boxes 10^-7.5..10^-3.5 thin, `prism`
+    bodies are prisms with two base corners 10^-4..10^-2 apart (sliver walls, needle cap facets)"""
+    kind = rng.choice(["box", "box", "slab", "tetra", "tetra", "hull", "hull", "hull", "lbody", "lbody", "degen", "point", "prism", "prism"])
     if kind == "point" and rng.random() < 0.7:
         kind = "box"
     if kind == "box":
@@ -228,6 +257,8 @@ def gen_inside_mesh(rng, nps):
         faces = hull_body(nps, rng.choice([5, 6, 8, 12]))
     elif kind == "lbody":
         faces = l_body()
+    elif kind == "prism":
+        faces = needle_prism(rng, nps)
     elif kind == "degen":
         faces = box([1.0, 1.5, 2.0]) if rng.random() < 0.5 else tetra(1.0)
         extra = []
@@ -240,7 +271,7 @@ def gen_inside_mesh(rng, nps):
         faces = np.concatenate([faces, np.array(extra)])
     else:
         faces = np.tile(nps.uniform(-1, 1, 3), (4, 3, 1))
-    rotated = kind in ("box", "lbody") and rng.random() < 0.4
+    rotated = kind in ("box", "lbody", "prism") and rng.random() < 0.4
     if rotated:
         faces = faces @ random_rotation(nps).T
     sc = 10.0 ** rng.choice([-9, -6, -3, -1, 0, 0, 1, 3, 6]) * (1.0 if rng.random() < 0.5 else float(nps.uniform(0.3, 3.0)))
@@ -368,7 +399,8 @@ def run_inside_stream(ctx, n_cases):
     per_mesh = 12
     lines, expect = [], []
     stats = {"rows": 0, "meshes": 0, "kinds": {}, "categories": {}, "inside_true": 0, "box_true": 0, "lines_rows": 0, "lines_true": 0,
-             "inwards_rows": 0, "inwards_true": 0, "start_rows": 0, "scales": {}, "disagreements": 0, "knife_edge_excluded": 0,
+             "inwards_rows": 0, "inwards_true": 0, "inwards_needle_rows": 0, "inwards_needle_kinds": {}, "inwards_needle_aspect": {},
+             "inwards_needle_rotation_dependent": 0, "start_rows": 0, "scales": {}, "disagreements": 0, "knife_edge_excluded": 0,
              "batch_vs_single_disagreements": 0}
     recorded = []
     real_lines_end = mod.lines_end_in_trimesh
@@ -460,8 +492,29 @@ def run_inside_stream(ctx, n_cases):
             k0 = int(np.argmin([np.linalg.norm(sl[k] - sl[(k + 1) % 3]) for k in range(3)]))
             picks.append(sl[[k0, (k0 + 1) % 3, (k0 + 2) % 3]])
             stats["inwards_sliver_rows"] = stats.get("inwards_sliver_rows", 0) + 1
-        for f in picks:
-            if rng.random() < 0.5:
+        # the NEEDLE / SLIVER facet of the body, whatever its kind: the facet of positive area with the largest aspect ratio (longest
+        # edge over smallest height), its corners rotated so that each of its three edges comes first once — the displacement of the
+        # check point must not depend on which edge that is (before repo fix ed093b8 it was measured by the first edge alone)
+        asp = [facet_aspect(f) for f in faces]
+        fin = [i for i in range(len(faces)) if np.isfinite(asp[i])]
+        n_regular = len(picks)
+        if fin:
+            i0 = max(fin, key=lambda i: asp[i])
+            for k0 in range(3):
+                picks.append(faces[i0][[k0, (k0 + 1) % 3, (k0 + 2) % 3]].copy())
+            dec = "inf" if not np.isfinite(asp[i0]) else f"1e{int(np.floor(np.log10(max(asp[i0], 1.0)))):+d}"
+            stats["inwards_needle_rows"] += 3
+            stats["inwards_needle_kinds"][kind] = stats["inwards_needle_kinds"].get(kind, 0) + 3
+            stats["inwards_needle_aspect"][dec] = stats["inwards_needle_aspect"].get(dec, 0) + 3
+        needle_verdicts = []
+        for ip, f in enumerate(picks):
+            if ip >= n_regular:
+                # the three rotations of the needle facet share one winding (so that their verdicts can be compared)
+                if ip == n_regular:
+                    needle_flip = rng.random() < 0.5
+                if needle_flip:
+                    f = f[[0, 2, 1]]
+            elif rng.random() < 0.5:
                 f = f[[0, 2, 1]]
             with np.errstate(all="ignore"):
                 ri = bool(mod.is_facet_inwards(f.copy(), faces.copy()))
@@ -471,6 +524,12 @@ def run_inside_stream(ctx, n_cases):
             expect.append(("inwards", ri, kind, "facet", faces, chk))
             stats["inwards_rows"] += 1
             stats["inwards_true"] += ri
+            if ip >= n_regular:
+                needle_verdicts.append(ri)
+        if len(set(needle_verdicts)) > 1:
+            # real code only: the verdict of one facet changed with the edge it is listed from (what ed093b8 repaired; can still
+            # happen when the check point sits on a knife edge of the ray test: counted, not a disagreement of the model)
+            stats["inwards_needle_rotation_dependent"] += 1
     out = run_driver(lines)
     samples = []
     for o, (what, real, kind, cat, faces, p) in zip(out, expect):
